@@ -318,6 +318,12 @@ def top(ctx, bstep, bt, btkey):
     ctx.eq('C03.t.accept', A, 'accept', ls.next[posk], T.ite(acc, pos1, ls.lh[posk]), sp=ls.sp,
            why='theta := theta\' only under s\' and U2 < min(1, n\'/n) (U2 a fresh uniform after the tree): never from a subtree that stopped; this is the only store of the position')
     ctx.eq('C03.t.rng', A, 'generator', ls.next[rngk], T.app('post0', U2), why='generator threaded through direction draw, tree and acceptance draw', sp=ls.sp)
+    try:
+        fin_pos = ev.final_term('self.position')
+    except Exception:
+        fin_pos = None
+    ctx.check('C03.t.final', A, 'final-position', fin_pos is ls.lx.get(posk), expected='the position after the step is the one the doubling loop leaves, on every path', found=show(fin_pos)[:200] if fin_pos is not None else '?', sp=sp,
+              why='a path around the loop (guard clause) or a later store of the position is a different transition for the inputs that take it')
     sk = [k_ for k_ in ls.lh if ls.init[k_] is T.TRUE]
     pmn, ppn, mmn, mpn = [ls.next[x] for x in (pm, pp, mm, mp)]
     cont = T.land(s1, uturn(pmn, ppn, mmn, mpn))
